@@ -185,6 +185,8 @@ def run_check(prop, tier, seed, a, t0):
                                            "unchanged: %s" % lost[:3])
         elif contracts:
             notes.append("no ledger entry for %s" % prop)
+    if getattr(ix, "broken", None) and not os.environ.get("VERIF_SKIP_BROKEN"):
+        checker_failure.append("contract module(s) failed to load: %s" % ", ".join(sorted(ix.broken)))
     if contracts and n_obl == 0 and not any(u.error for u in units):
         checker_failure.append("zero obligations generated")
     if static is not None:
